@@ -257,7 +257,14 @@ func (m *MaxDistanceToShapeIndexTarget) visitContainingShapes(index *ShapeIndex,
 	//
 	// TODO(roberts): Do this by merge-joining the two ShapeIndexes and share
 	// the code with BooleanOperation.
-	for _, shape := range m.index.shapes {
+	// Visit the target's shapes in increasing id order (not in map order): the
+	// visitor may stop early, e.g. once MaxResults containing shapes are found,
+	// and which shapes are reported must not vary from call to call.
+	for id := int32(0); id < m.index.nextID; id++ {
+		shape := m.index.Shape(id)
+		if shape == nil {
+			continue
+		}
 		numChains := shape.NumChains()
 		// Shapes that don't have any edges require a special case (below).
 		testedPoint := false
